@@ -35,7 +35,8 @@ func intsIn(lo, hi int) []string {
 var (
 	badInts   = []string{"abc", "1.5", "NaN", "1e1", "0x1", "١"}
 	colorsIn  = []string{"red", "RED", "Red", "honeydew", "#fff", "#FFF", "#a1b2c3", "#A1B2C3", "linear-gradient(red, blue)", "radial-gradient(#fff, #000)", "linear-gradient(to right, red 0%, blue 100%)"}
-	colorsOut = []string{"notacolor", "#12", "#ggg", "#12345", "#1234567", "fff", "rgb(1,2,3", "linear-gradient(notacolor, blue)", "#"}
+	// (the error message documents a gradient as `linear-gradient(red, blue)`; d2 matches the function name case-sensitively)
+	colorsOut = []string{"notacolor", "#12", "#ggg", "#12345", "#1234567", "fff", "rgb(1,2,3", "linear-gradient(notacolor, blue)", "#", "LINEAR-GRADIENT(red, blue)", "Radial-Gradient(#fff, #000)"}
 	boolIn    = []string{"true", "false"}
 	boolOut   = []string{"maybe", "yes", "2", "truee"}
 )
@@ -86,7 +87,12 @@ func c16Table() []domain {
 	return t
 }
 
-type c16Case struct{ Key, Ctx, Val string; In, Keyword bool; Field string }
+type c16Case struct {
+	Key, Ctx, Val string
+	In, Keyword   bool
+	Field         string
+	Primer        *string `json:",omitempty"` // a value of the same attribute compiled first in the same process (its verdict is not judged here)
+}
 
 func (c c16Case) program() (src string, valLine int) {
 	v := c.Val
@@ -112,12 +118,23 @@ func c16Oracle(in string) eng.Res {
 	if err := json.Unmarshal([]byte(in), &c); err != nil {
 		return eng.Bad("harness-error", err.Error())
 	}
+	kind := "value-outside-domain-accepted"
+	after := ""
+	if c.Primer != nil {
+		pc := c
+		pc.Val, pc.Primer = *c.Primer, nil
+		psrc, _ := pc.program()
+		Compile(psrc)
+		after = ":after-validating-another-value-of-the-attribute"
+		if strings.EqualFold(*c.Primer, c.Val) {
+			after = ":after-validating-a-letter-case-variant"
+		}
+	}
 	src, valLine := c.program()
 	g, _, err := Compile(src)
-	kind := "value-outside-domain-accepted"
 	if c.In {
 		if err != nil {
-			return eng.Bad("value-in-domain-rejected:"+c.Key+":"+valueKind(c.Val), fmt.Sprintf("program %q: %v", src, err))
+			return eng.Bad("value-in-domain-rejected:"+c.Key+":"+valueKind(c.Val)+after, fmt.Sprintf("program %q: %v", src, err))
 		}
 		// accepted values reach the diagram unchanged (keyword-valued: up to letter case)
 		var attrs string
@@ -159,7 +176,7 @@ func c16Oracle(in string) eng.Res {
 		return eng.OK("accepted:"+c.Key+":"+c.Ctx, true)
 	}
 	if err == nil {
-		return eng.Bad(kind+":"+c.Key+":"+valueKind(c.Val), fmt.Sprintf("program %q compiles", src))
+		return eng.Bad(kind+":"+c.Key+":"+valueKind(c.Val)+after, fmt.Sprintf("program %q compiles", src))
 	}
 	var pe *d2parser.ParseError
 	if !errors.As(err, &pe) || len(pe.Errors) == 0 {
@@ -205,7 +222,7 @@ func valueKind(v string) string {
 func init() {
 	eng.Register(&eng.Check{
 		ID: "C16", Level: "exploration",
-		Rule: "full product: every attribute of the domain table (30 attributes: all numeric, colour, enumerated and boolean style keywords, sizes, positions, grid settings, direction, shape) × every in-domain and out-of-domain value of its table (boundaries lo-1, lo, lo+1, hi-1, hi, hi+1; 0.0/1.0/1.01; NaN, Inf; non-integers; named colours in 3 letter cases, #rgb, #rrggbb, malformed hex, gradients; every shape/font/pattern/transform/direction keyword in two letter cases; unknown words) × every context in which the attribute is legal (object, container, connection, class applied to an object), plus every theme id of the catalog and 4 unknown ids in d2-config; oracle: accepted ⇔ in domain, a rejection carries an error on the value's line, an accepted value reaches the compiled attribute unchanged (keyword-valued: up to letter case)",
+		Rule: "full product: every attribute of the domain table (30 attributes: all numeric, colour, enumerated and boolean style keywords, sizes, positions, grid settings, direction, shape) × every in-domain and out-of-domain value of its table (boundaries lo-1, lo, lo+1, hi-1, hi, hi+1; 0.0/1.0/1.01; NaN, Inf; non-integers; named colours in 3 letter cases, #rgb, #rrggbb, malformed hex, gradients; every shape/font/pattern/transform/direction keyword in two letter cases; unknown words) × every context in which the attribute is legal (object, container, connection, class applied to an object), plus every ordered pair of table values of one attribute compiled one after the other in one process (the verdict on the second must not depend on the first), plus every theme id of the catalog and 4 unknown ids in d2-config; oracle: accepted ⇔ in domain, a rejection carries an error on the value's line, an accepted value reaches the compiled attribute unchanged (keyword-valued: up to letter case)",
 		Assumptions: []string{"values whose status the documentation leaves open are not in the table: 8-digit hex colours, `t`/`1`/`TRUE` for booleans, `+5`, hex or underscore number spellings, single-stop gradients", "`error at the value` is checked as: some reported error lies on the value's source line"},
 		Oracles: map[string]eng.Oracle{"domain": c16Oracle, "theme": c16Theme},
 		Run: func(w *eng.W) {
@@ -213,11 +230,29 @@ func init() {
 				for _, d := range c16Table() {
 					for _, ctx := range d.Ctx {
 						for _, v := range d.In {
-							b, _ := json.Marshal(c16Case{d.Key, ctx, v, true, d.Keyword, d.Field})
+							b, _ := json.Marshal(c16Case{d.Key, ctx, v, true, d.Keyword, d.Field, nil})
 							w.Eval("domain", string(b))
 						}
 						for _, v := range d.Out {
-							b, _ := json.Marshal(c16Case{d.Key, ctx, v, false, d.Keyword, d.Field})
+							b, _ := json.Marshal(c16Case{d.Key, ctx, v, false, d.Keyword, d.Field, nil})
+							w.Eval("domain", string(b))
+						}
+					}
+				}
+			})
+			// the verdict on a value must not depend on what was validated before it in the process: every ordered pair of
+			// table values of one attribute, the first compiled as a primer
+			w.Phase("attribute-x-ordered-value-pairs", func() {
+				for _, d := range c16Table() {
+					ctx := d.Ctx[0]
+					all := append(append([]string{}, d.In...), d.Out...)
+					for _, p := range all {
+						for i, v := range all {
+							if p == v {
+								continue
+							}
+							p := p
+							b, _ := json.Marshal(c16Case{d.Key, ctx, v, i < len(d.In), d.Keyword, d.Field, &p})
 							w.Eval("domain", string(b))
 						}
 					}
